@@ -47,8 +47,10 @@ func (f *fragment) Stats() storage.Stats {
 func (f *fragment) Compaction() (bool, error) {
 	select {
 	case <-f.ctx.Done():
-		// fragment is closed or destroyed
-		return false, nil
+		// The fragment is closed or destroyed: there is nothing left to compact.
+		// Answering "not done" makes the compaction worker call this function
+		// again and again, for ever: it never reaches the other fragments again.
+		return true, nil
 	default:
 	}
 	return f.storage.Compaction()
